@@ -424,6 +424,45 @@ def check(run: Run) -> None:
         if n_cls < 2:
             raise AnalysisError("anchor-vanished", f"C20.j: {n_cls} list storages with a validity bitmap and a copy_from, expected ListStorage and MutableListStorage")
 
+    with run.obligation("C20.k", "K7", "the full-state capture recurses as a full-state capture: every capture_current_* function (set / dict / list / bundle) captures its "
+                        "children with capture_current_delta, never with the per-cycle capture_delta - a nested collection rebuilt from the snapshot would otherwise "
+                        "hold only what each child did in the current cycle"):
+        fi_ = run.tree.file(DELTA)
+        n_cur = 0
+        for fd_ in fi_.funcs:
+            if fd_.body is None or not fd_.name.startswith("capture_current_") or fd_.name == "capture_current_delta":
+                continue
+            fa_ = R.parse(run, fd_)
+            names = [R.callee_name(c) for c in R.calls(fa_)]
+            loops_ = R.loops(fa_)
+            if not loops_:
+                continue   # leaf kinds (atomic / window / reference: capture_current_transient) have no children to recurse into
+            n_cur += 1
+            run.count(1, "C20.k")
+            if any(R.callee_name(c) == "capture_delta" for l in loops_ for c in R.calls(l.body)):
+                run.finding("C20.k", f"{fd_.name}:recurses-with-per-cycle-capture", f"{fd_.name} captures a child with capture_delta (this cycle's changes) instead of "
+                            "capture_current_delta: elements added to the child in earlier cycles are missing from the full-state snapshot", loc=fa_.loc(fa_.body))
+            if fd_.name in ("capture_current_dict", "capture_current_list", "capture_current_bundle") and "capture_current_delta" not in names:
+                run.finding("C20.k", f"{fd_.name}:children-not-captured", f"{fd_.name} no longer captures its children through capture_current_delta", loc=fa_.loc(fa_.body))
+        run.sites(n_cur, 4, "capture_current_* container functions")
+
+    with run.obligation("C20.l", "K2", "a recovering component forwards the live tick of its start cycle as well: in recovering_pass_through::eval no path that publishes the "
+                        "recovered seed leaves the evaluation before the `ts.modified()` forwarding (seed first, then this cycle's delta on top)"):
+        fa = R.fn(run, "include/hgraph/lib/std/component.h", "recovering_pass_through::eval")
+        fl = R.flow(run, fa)
+        seed = R.call_is(name="apply", recv=r"out")
+        live = lambda n: n.kind == "cond" and re.sub(r"\s", "", n.label) == "ts.modified()"
+        run.count(1, "C20.l")
+        if not fl.nodes_of(live):
+            run.finding("C20.l", "recovering_pass_through:no-live-forwarding", "the live input is no longer tested with ts.modified()", loc=fa.loc(fa.body))
+        else:
+            R.k2_follow(run, "C20.l", fl, seed, live, "after the recovered seed is published the evaluation still reaches the live-tick forwarding", exits="normal")
+            R.k2_precede(run, "C20.l", fl, R.call_is(name="recorded_seed_resolver"), seed, "the seed is resolved before it is published")
+            w = fl.reach([fl.start], targets=lambda n, fl=fl: n.id == fl.cfg.exit, avoid=live, after_source=False)
+            if w is not None:
+                run.finding("C20.l", "recovering_pass_through:exit-before-live-forwarding", "an evaluation can end before the live input is looked at: " + fl.path_text(w),
+                            loc=fl.cfg.describe(w[-1][0]))
+
 
 def _method(run: Run, struct: str, name: str) -> C.FuncAST:
     fi = run.tree.file(MEM)
@@ -481,6 +520,8 @@ def _check_capture(run: Run, fa: C.FuncAST, sources, fname: str, via=None) -> No
 
 
 VARIANTS = [
+    {"id": "k-current-dict-recurses-per-cycle", "expect": "C20.k", "edits": [{"file": DELTA, "find": "                Value child_delta = capture_current_delta(child);\n                modified.set_item(key, child_delta.view());", "replace": "                Value child_delta = capture_delta(child);\n                modified.set_item(key, child_delta.view());"}]},
+    {"id": "l-recovery-cycle-drops-live-tick", "expect": "C20.l", "edits": [{"file": "include/hgraph/lib/std/component.h", "find": "                    if (recovered.has_value()) { out.apply(recovered.view()); }\n                    initialized.set(true);", "replace": "                    initialized.set(true);\n                    if (recovered.has_value()) { out.apply(recovered.view()); return; }"}]},
     {"id": "j-mutable-list-copy-drops-holes", "expect": "C20.j", "edits": [{"file": "include/hgraph/types/value/mutable_container_ops.h", "find": "                slots_ = ValueSlotStore{};  // unbound; destroys any prior payloads\n                return;", "replace": "                slots_ = ValueSlotStore{};  // unbound; destroys any prior payloads\n                validity_ = other.validity_;\n                return;"}, {"file": "include/hgraph/types/value/mutable_container_ops.h", "find": "                ++size_;\n            }\n            validity_ = other.validity_;\n", "replace": "                ++size_;\n            }\n"}]},
     {"id": "j-compact-list-copy-drops-holes", "expect": "C20.j", "edits": [{"file": "include/hgraph/types/value/compact_storage.h", "find": "            size_            = other.size_;\n            validity_        = other.validity_;\n            if (element_binding_ == nullptr) { return; }", "replace": "            size_            = other.size_;\n            if (element_binding_ == nullptr) { validity_ = other.validity_; return; }"}]},
     {"id": "j-twin-copy-bitmap-first", "expect": None, "edits": [{"file": "include/hgraph/types/value/mutable_container_ops.h", "find": "            element_binding_ = other.element_binding_;\n            size_            = 0;\n            if (element_binding_ == nullptr)\n            {\n                slots_ = ValueSlotStore{};  // unbound; destroys any prior payloads", "replace": "            element_binding_ = other.element_binding_;\n            validity_        = other.validity_;\n            size_            = 0;\n            if (element_binding_ == nullptr)\n            {\n                slots_ = ValueSlotStore{};  // unbound; destroys any prior payloads"}]},
